@@ -7,7 +7,7 @@ from .. import pyloops as PL
 
 PID = "C14"
 TITLE = "Procedural generators give valid meshes of the promised shape, all parameters"
-LEAN_MODULES = ["Mouette.Props.C14", "Mouette.Props.C14NoUnused", "Mouette.Props.C14Oriented", "Mouette.Props.C14Sphere", "Mouette.Props.C14Cylinder", "Mouette.Props.C14Rings", "Mouette.Props.C14Geom"]
+LEAN_MODULES = ["Mouette.Props.C14", "Mouette.Props.C14NoUnused", "Mouette.Props.C14Oriented", "Mouette.Props.C14Sphere", "Mouette.Props.C14Cylinder", "Mouette.Props.C14Rings", "Mouette.Props.C14Triangle", "Mouette.Props.C14Geom"]
 
 # ------------------------------------------------------------------------------------------------
 # translated fragments
@@ -522,7 +522,7 @@ REQUIRED_THEOREMS = ["tetrahedron_closed_oriented", "icosahedron_closed_oriented
                      "torus_quad_sides_nodup", "torus_quads_dirEdges_count", "unit_gridFaces_eq", "unit_grid_quads_oriented",
                      "unit_grid_tris_oriented", "sphere_uvFaces_eq", "sphere_oriented", "sphere_closed",
                      "cylinderFaces_eq", "cylinder_oriented", "cylinder_closed", "cylinder_open_border",
-                     "ringFaces_mem", "ring_oriented", "ring_border", "flat_ringFaces_eq", "flat_ring_oriented", "flat_ring_border"]
+                     "ringFaces_mem", "ring_oriented", "ring_border", "flat_ringFaces_eq", "flat_ring_oriented", "flat_ring_border", "unit_triangle_inRange"]
 TRUSTED = [
     "Lean 4.33.0 kernel; axioms ⊆ {propext, Classical.choice, Quot.sound}",
     "translator vlib/pyloops.py + vlib/props/c14.py (Python ast -> Lean terms for loop nests and literal tables); it is itself "
